@@ -1,45 +1,177 @@
+/-
+  Proofs/Indep.lean — proofs for C10 (independence of query order, row order and id filters).
+  Helper lemmas live in `Coma.Proofs.Indep`; the six required theorems in `Coma.Proofs`.
+-/
 import Props.Defs
 import Proofs.SortLemmas
 import Proofs.Fields
 import Proofs.Cmap
-namespace Coma.Proofs
-open Coma Coma.Spec
+import Proofs.Select
+import Proofs.Modes
+namespace Coma.Proofs.Indep
+open Coma Coma.Spec Coma.Proofs Coma.Proofs.Cmap
 
-/-- every row of the first pass belongs to one of the queries (its id) -/
+/-- the row kept by the first pass for one `perQuery` result -/
+def keep (o : Option Row) : Option Row :=
+  match o with
+  | some row => if row.pairs.isEmpty then none else some row
+  | none     => none
+
+theorem keep_some {o : Option Row} {r : Row} (h : keep o = some r) : o = some r := by
+  unfold keep at h
+  split at h
+  · split at h
+    · cases h
+    · injection h with h; rw [h]
+  · cases h
+
+theorem perQuery_qid {cfg : Cfg} {refs : List OMap} {seeds : List Seed} {q : OMap} {it : Int} {row : Row}
+    (h : perQuery cfg refs seeds q it = .ok (some row)) : row.queryId = q.id := by
+  unfold perQuery at h
+  split at h
+  · cases h
+  · simp only [bind, Except.bind, pure, Except.pure] at h
+    split at h
+    · cases h
+    · rename_i rows hrows
+      simp only [Except.ok.injEq] at h
+      obtain ⟨s, _, hs⟩ := Modes.mapM_ok_mem _ _ _ hrows row (Modes.bestRow_mem h)
+      split at hs
+      · cases hs
+      · exact (alignerAlign_fields _ _ _ _ _ _ _ _ hs).1
+
+theorem executeSingle_eq (cfg : Cfg) (refs : List OMap) (t : SeedTable) (qs : List OMap) (it : Int) :
+    executeSingle cfg refs t qs it =
+      match qs.mapM (fun q => perQuery cfg refs (t.lookup q.key) q it) with
+      | .error e => .error e
+      | .ok rs => .ok (rs.filterMap keep) := by
+  unfold executeSingle
+  simp only [bind, Except.bind, pure, Except.pure]
+  cases qs.mapM (fun q => perQuery cfg refs (t.lookup q.key) q it) with
+  | error e => rfl
+  | ok rs =>
+    simp only
+    congr 2
+
+theorem executeSingle_ok_iff (cfg : Cfg) (refs : List OMap) (t : SeedTable) (qs : List OMap) (it : Int)
+    (rows : List Row) :
+    executeSingle cfg refs t qs it = .ok rows ↔
+      (∀ q ∈ qs, ∃ o, perQuery cfg refs (t.lookup q.key) q it = .ok o) ∧
+      rows = qs.filterMap (fun q => keep (toOk (perQuery cfg refs (t.lookup q.key) q it))) := by
+  rw [executeSingle_eq]
+  cases hm : qs.mapM (fun q => perQuery cfg refs (t.lookup q.key) q it) with
+  | error e =>
+    constructor
+    · intro h; cases h
+    · rintro ⟨h1, _⟩
+      have := (mapM_ok_iff (fun q => perQuery cfg refs (t.lookup q.key) q it) qs _).2 ⟨h1, rfl⟩
+      rw [hm] at this; cases this
+  | ok rs =>
+    obtain ⟨h1, h2⟩ := (mapM_ok_iff _ qs rs).1 hm
+    simp only [Except.ok.injEq]
+    rw [h2, List.filterMap_map]
+    constructor
+    · intro h; exact ⟨h1, h.symm⟩
+    · rintro ⟨_, h⟩; exact h.symm
+
+theorem filterMap_ids_sub (F : OMap → Option Row) (hF : ∀ q r, F q = some r → r.queryId = q.id) :
+    ∀ qs : List OMap, ((qs.filterMap F).map (·.queryId)).Sublist (qs.map (·.id))
+  | [] => List.Sublist.slnil
+  | q :: qs => by
+    rw [List.filterMap_cons]
+    cases hq : F q with
+    | none => exact List.Sublist.cons _ (filterMap_ids_sub F hF qs)
+    | some r =>
+      simp only [List.map_cons]
+      rw [hF q r hq]
+      exact List.Sublist.cons_cons _ (filterMap_ids_sub F hF qs)
+
+theorem strict_of_sorted_nodup {α} (key : α → Int) (l : List α)
+    (hs : (l.map key).Pairwise (· ≤ ·)) (hn : (l.map key).Nodup) :
+    l.Pairwise (fun a b => key a < key b) := by
+  rw [List.pairwise_map] at hs
+  unfold List.Nodup at hn
+  rw [List.pairwise_map] at hn
+  refine (hs.and hn).imp ?_
+  intro a b ⟨h1, h2⟩
+  omega
+
+end Coma.Proofs.Indep
+
+namespace Coma.Proofs
+open Coma Coma.Spec Coma.Proofs.Indep Coma.Proofs.Select
+
 theorem executeSingle_ids (cfg : Cfg) (refs : List OMap) (t : SeedTable) (qs : List OMap) (it : Int) (rows : List Row)
     (h : executeSingle cfg refs t qs it = .ok rows) :
     (rows.map (·.queryId)).Sublist (qs.map (·.id)) := by
-  sorry
+  obtain ⟨_, rfl⟩ := (executeSingle_ok_iff cfg refs t qs it rows).1 h
+  apply filterMap_ids_sub
+  intro q r hk
+  have hk := keep_some hk
+  cases hp : perQuery cfg refs (t.lookup q.key) q it with
+  | error e => rw [hp] at hk; cases hk
+  | ok o =>
+    rw [hp] at hk
+    simp only [Cmap.toOk_ok] at hk
+    subst hk
+    exact perQuery_qid hp
 
-/-- the per-query filter does not depend on the order of its input when query ids are distinct -/
 theorem filterBestPerQuery_perm (rows rows' : List Row) (hp : rows.Perm rows') (hn : (rows.map (·.queryId)).Nodup) :
     filterBestPerQuery rows = filterBestPerQuery rows' := by
-  sorry
+  rw [fbq_eq, fbq_eq]
+  have hS : ((isort qid (isort nconf rows)).Perm rows) := (isort_perm _ _).trans (isort_perm _ _)
+  have hS' : ((isort qid (isort nconf rows')).Perm rows') := (isort_perm _ _).trans (isort_perm _ _)
+  have hnS : ((isort qid (isort nconf rows)).map qid).Nodup := (hS.map qid).nodup_iff.2 hn
+  have hstrict := strict_of_sorted_nodup qid _ (isort_sorted qid (isort nconf rows)) hnS
+  have hle := isort_sorted qid (isort nconf rows')
+  rw [List.pairwise_map] at hle
+  have := eq_of_perm_sorted qid _ _ ((hS'.trans hp.symm).trans hS.symm) hstrict hle
+  rw [this]
 
-/-- permuting the query list permutes the first-pass rows -/
 theorem executeSingle_perm (cfg : Cfg) (refs : List OMap) (t : SeedTable) (qs qs' : List OMap) (it : Int)
     (rows rows' : List Row) (hp : qs.Perm qs')
     (h : executeSingle cfg refs t qs it = .ok rows) (h' : executeSingle cfg refs t qs' it = .ok rows') :
     rows.Perm rows' := by
-  sorry
+  obtain ⟨_, rfl⟩ := (executeSingle_ok_iff cfg refs t qs it rows).1 h
+  obtain ⟨_, rfl⟩ := (executeSingle_ok_iff cfg refs t qs' it rows').1 h'
+  exact hp.filterMap _
 
-/-- single-pass mode: the main file does not depend on the order of the queries -/
 theorem execute_single_perm (cfg : Cfg) (refs : List OMap) (t : SeedTable) (qs qs' : List OMap) (it : Int)
     (o o' : Output) (hp : qs.Perm qs') (hn : (qs.map (·.id)).Nodup)
     (h : execute cfg .single refs t qs it = .ok o) (h' : execute cfg .single refs t qs' it = .ok o') :
     o.main = o'.main := by
-  sorry
-
-/-- -qId / -rId give exactly the run on files physically restricted to those molecules -/
+  unfold execute at h h'
+  simp only [bind, Except.bind, pure, Except.pure] at h h'
+  cases h1 : executeSingle cfg refs t qs it with
+  | error e => rw [h1] at h; cases h
+  | ok first =>
+    cases h2 : executeSingle cfg refs t qs' it with
+    | error e => rw [h2] at h'; cases h'
+    | ok first' =>
+      rw [h1] at h
+      rw [h2] at h'
+      simp only [if_true, Except.ok.injEq] at h h'
+      subst h
+      subst h'
+      exact filterBestPerQuery_perm first first' (executeSingle_perm cfg refs t qs qs' it _ _ hp h1 h2)
+        ((executeSingle_ids cfg refs t qs it first h1).nodup hn)
 theorem runProgram_id_filter (cfg : Cfg) (mode : Mode) (refRows qryRows : List CRow) (refIds qryIds : List Int)
     (t : SeedTable) (it : Int) :
     runProgram cfg mode refRows qryRows refIds qryIds t it =
       runProgram cfg mode
         (if refIds.isEmpty then refRows else refRows.filter (fun r => refIds.contains r.id))
         (if qryIds.isEmpty then qryRows else qryRows.filter (fun r => qryIds.contains r.id)) [] [] t it := by
-  sorry
+  have key : ∀ (rows : List CRow) (ids : List Int),
+      readCmap 1 rows ids = readCmap 1 (if ids.isEmpty then rows else rows.filter (fun r => ids.contains r.id)) [] := by
+    intro rows ids
+    cases ids with
+    | nil => rfl
+    | cons a as =>
+      rw [readCmap_filter 1 rows (a :: as) (by simp)]
+      rfl
+  unfold runProgram readMaps
+  rw [key refRows refIds, key qryRows qryIds]
 
-/-- the order of rows (and hence of molecules) inside both CMAP files is irrelevant -/
 theorem runProgram_row_perm (cfg : Cfg) (mode : Mode) (refRows refRows' qryRows qryRows' : List CRow)
     (refIds qryIds : List Int) (t : SeedTable) (it : Int)
     (hr : refRows.Perm refRows') (hq : qryRows.Perm qryRows')
@@ -47,6 +179,7 @@ theorem runProgram_row_perm (cfg : Cfg) (mode : Mode) (refRows refRows' qryRows 
     (h2 : ∀ id, (qryRows.filter (fun r => r.id = id ∧ r.chan = 0)).length ≤ 1) :
     runProgram cfg mode refRows qryRows refIds qryIds t it =
     runProgram cfg mode refRows' qryRows' refIds qryIds t it := by
-  sorry
+  unfold runProgram readMaps
+  rw [readCmap_perm 1 refRows refRows' refIds hr h1, readCmap_perm 1 qryRows qryRows' qryIds hq h2]
 
 end Coma.Proofs
